@@ -159,7 +159,11 @@ func observe(bc *core.Blockchain, h *History, height uint32) (o Obs) {
 	safe("blocks", func() string {
 		var hs hasher
 		known := uint32(len(h.Blocks))
-		for i := uint32(0); i <= height && i <= known; i++ {
+		var lo uint32
+		if h.TraceOnly && height >= h.MTB {
+			lo = height - h.MTB + 1 // older blocks are untraceable, a RemoveUntraceableBlocks node may have dropped them
+		}
+		for i := lo; i <= height && i <= known; i++ {
 			hash := h.hashOf(i)
 			b, err := bc.GetBlock(hash)
 			if err != nil {
